@@ -770,7 +770,7 @@ fn gen(r: &mut Rng, tier: Tier, out: &mut Out) {
 	let scratch = mk_temp(0).expect("scratch directory");
 	let bases: Vec<usize> = (0..2).filter(|b| base_dir(*b).is_some()).collect();
 	out.stats.add("bases", bases.len() as u64);
-	let rounds = if tier == Tier::Thorough { 15000 } else { 700 };
+	let rounds = if tier == Tier::Thorough { 6000 } else { 700 };
 	let mut made = 0;
 	let mut tries = 0;
 	while made < rounds && tries < rounds * 4 {
@@ -800,7 +800,7 @@ fn gen(r: &mut Rng, tier: Tier, out: &mut Out) {
 		}
 		// small directories: every creation order where the creation order decides the listing order
 		let limit = if tier == Tier::Thorough { 5 } else { 3 };
-		if n <= limit && bases.contains(&1) && (tier == Tier::Thorough || made % 4 == 0) {
+		if n <= limit && bases.contains(&1) && made % (if tier == Tier::Thorough { 3 } else { 4 }) == 0 {
 			out.stats.hit("exhaustive-orders");
 			for order in permutations(n) {
 				if let Some(listed) = probe(1, &d.files, &order) { emit(out, "vg", 1, &listed, &d.queries, None); }
